@@ -131,7 +131,9 @@ CHECKS = {
          "argument using the Tier-2 facts (critical position, exact period, large-shift value), prefilters 19 per skipped byte + 4883 per call amortised "
          "against the prefilter's skip; the small-period case WITH a prefilter (which throws the Two-Way memory away) by a Fine-Wilf spacing argument "
          "(Sub/CostTwoWaySmall.v: two windows whose right part matches and whose left part fails are more than n-cp-p apart). "
-         "PARTIAL: complete iterator traversals are bounded by theorems only if Sub/CostIter.v is listed in coq/_CoqProject (C13_iter_*); otherwise by the run-time oracle.",
+         "Complete traversals: C13_iter_complete / C13_riter_complete (next until the first None yields exactly the greedy sequence in at most "
+         "(4907+4909)(|h|+2) resp. 142(|h|+2) steps) and C13_iter_any / C13_riter_any for any number of calls, from hit-aware bounds (Sub/CostHit.v: a call "
+         "reporting a match at i costs O(i+|x|)) summed by a potential argument over the iterator position (Sub/CostIter.v).",
     design_ref="DESIGN.md section 0.5", note="Trusted: Coq kernel; the cost-exact hand-written model, tied to the code by comparing whole step traces (digests) on every run; "
          "the placement of hooks (one event per load / loop iteration). No axioms.",
     technique="Coq proof: amortised (potential-function) step-cost bounds over the modelled loops incl. a Fine-Wilf periodicity argument, composed through the meta searcher + step-trace differential correspondence; growth families against the proved bound",
